@@ -6,7 +6,7 @@
    repaired by the fix: commits 50fc060 and 1070095). *)
 From Coq Require Import ZArith List Bool Lia.
 From Mistletoe Require Import Base.Sx Base.PyStr Base.PyText Gen.GenTables Gen.GenConfig Model.Tree Model.CoreTokens Model.Block Model.Build
-     Model.MarkdownRenderer Model.Parser Proofs.PlainProse Proofs.Prose Proofs.ProseLines Proofs.ListLaw Proofs.FenceLaw Spec.Fragment Proofs.InertProse Proofs.RefSentence Proofs.LinkSentence Proofs.EmphPhrases Proofs.LinkPhrases Proofs.MixPhrases Proofs.CodeSpan Proofs.HardBreaks Proofs.BreakBlocks Proofs.StrikeSentence Proofs.EscSentence Proofs.ImageSentence Proofs.LeafSpans Proofs.OneInline Proofs.EmphSimple Proofs.NestedEmph Proofs.TitleLink Proofs.FragmentP Proofs.FragmentDoc Proofs.FragmentHtml.
+     Model.MarkdownRenderer Model.Parser Proofs.PlainProse Proofs.Prose Proofs.ProseLines Proofs.ListLaw Proofs.FenceLaw Spec.Fragment Proofs.InertProse Proofs.RefSentence Proofs.LinkSentence Proofs.EmphPhrases Proofs.LinkPhrases Proofs.MixPhrases Proofs.CodeSpan Proofs.HardBreaks Proofs.BreakBlocks Proofs.StrikeSentence Proofs.EscSentence Proofs.ImageSentence Proofs.LeafSpans Proofs.OneInline Proofs.EmphSimple Proofs.NestedEmph Proofs.TitleLink Proofs.AutoLinkSentence Proofs.FragmentP Proofs.FragmentDoc Proofs.FragmentHtml.
 Import ListNotations.
 Local Open Scope Z_scope.
 
@@ -337,7 +337,7 @@ Section RT.
     assert (EF : exists frs, flat_map frags (RawText (c0 :: pre) :: inl_tok x :: EmphSentence.raw_if post) =
                  Fw (c0 :: pre) :: frs ++ match post with [] => [] | _ => [Fw post] end /\
                  Forall (fun f => mem 10 (ftext f) = false) frs /\ concat (map ftext frs) = inl_text x).
-    { destruct x as [w|c|w d|ch k h ps z|w d tl]; cbn [inl_tok inl_text] in *.
+    { destruct x as [w|c|w d|ch k h ps z|w d tl|u0 usc ur]; cbn [inl_tok inl_text] in *.
       - exists [F $"~~"; Fw w; F $"~~"]. split; [destruct post; reflexivity|]. split; [|reflexivity].
         unfold mem in N10. rewrite !existsb_app in N10. apply orb_false_iff in N10 as [_ N10]. apply orb_false_iff in N10 as [N10 _].
         repeat constructor; cbn [ftext F Fw]; try reflexivity. exact N10.
@@ -362,7 +362,9 @@ Section RT.
         unfold mem in N10. cbn [app existsb] in N10. rewrite !existsb_app in N10. cbn [existsb] in N10. rewrite !existsb_app in N10. cbn [existsb] in N10.
         repeat (apply orb_false_iff in N10; destruct N10 as [? N10]).
         repeat constructor; cbn [ftext F Fw]; try reflexivity; try assumption.
-        unfold mem. cbn [existsb]. rewrite existsb_app in N10. apply orb_false_iff in N10 as [N10 _]. rewrite H6, N10. reflexivity. }
+        unfold mem. cbn [existsb]. rewrite existsb_app in N10. apply orb_false_iff in N10 as [N10 _]. rewrite H6, N10. reflexivity.
+      - exists [F ($"<" ++ (u0 :: usc ++ 58 :: ur) ++ $">")]. split; [destruct post; reflexivity|]. split; [|cbn [map concat ftext F app]; rewrite ?app_nil_r; reflexivity].
+        repeat constructor. cbn [ftext F]. exact N10. }
     destruct EF as (frs & -> & Hf & Ec).
     rewrite plain_from_flat.
     - assert (E : concat (map ftext (Fw (c0 :: pre) :: frs ++ match post with [] => [] | _ => [Fw post] end)) = c0 :: one_body pre x post).
